@@ -639,7 +639,7 @@ impl GraphStore {
                     // the chain now ends in a version stamped cv; everything before it is the old chain (minus, if it was
                     // already stamped cv, its last element)
                     assert forall|v: u64| v < cv implies read(c1, v) == read(c0, v) by {
-                        if c0.last().version < cv {
+                        if c1.len() == c0.len() + 1 {
                             assert(c1 =~= c0.push(c1.last()));
                             lemma_read_ignores_newer_last(c0, c1.last(), v);
                         } else {
